@@ -605,6 +605,12 @@ func (s *Module) AddMPTNodes(nodes [][]byte) error {
 			// EmptyNode has no hash and can't be a part of the pool.
 			return errors.New("failed to restore MPT node: unexpected EmptyNode")
 		}
+		// A node with a child written out in full instead of its hash has the
+		// same hash as the proper one, but the child would never be requested
+		// and stored then.
+		if !bytes.HasPrefix(nBytes, n.Node.Bytes()) {
+			return errors.New("failed to restore MPT node: not a canonical node encoding")
+		}
 		err := s.restoreNode(n.Node)
 		if err != nil {
 			return err
